@@ -130,6 +130,11 @@ Proof.
   cbn [firstn nth]. apply IH. lia.
 Qed.
 
+Lemma nth_repeat_lt {A} (a d : A) : forall m t, (t < m)%nat -> nth t (repeat a m) d = a.
+Proof.
+  induction m as [|m IH]; intros t Ht; [lia|]. destruct t as [|t]; [reflexivity|]. cbn [repeat nth]. apply IH. lia.
+Qed.
+
 (** the same, pointwise: before n-1 clocks have passed the initial value, afterwards input(t-(n-1)) *)
 Theorem delay_line_nth : forall (n : nat) (i : Z) (xs : list Z) (t : nat), (t < length xs)%nat ->
   nth t (firstn (length xs) (repeat i (n - 1) ++ xs)) 0 =
@@ -137,7 +142,7 @@ Theorem delay_line_nth : forall (n : nat) (i : Z) (xs : list Z) (t : nat), (t < 
 Proof.
   intros n i xs t Ht. rewrite nth_firstn_lt by exact Ht.
   destruct (Nat.ltb_spec t (n - 1)) as [H|H].
-  - rewrite app_nth1 by (rewrite repeat_length; exact H). apply nth_repeat.
+  - rewrite app_nth1 by (rewrite repeat_length; exact H). apply nth_repeat_lt. exact H.
   - rewrite app_nth2 by (rewrite repeat_length; exact H). rewrite repeat_length. reflexivity.
 Qed.
 
@@ -163,9 +168,12 @@ Proof.
   intros w limit ins Hl.
   change [0] with ((fun t => [Z.of_nat t mod (limit + 1)]) 0%nat).
   apply (trace_closed _ (fun _ => True)); [|apply Forall_True].
-  intros t inp _. unfold counter_step.
-  replace limit with (limit + 1 - 1) at 1 by lia. rewrite succ_mod_step by lia.
-  replace (Z.of_nat t + 1) with (Z.of_nat (S t)) by lia. reflexivity.
+  intros t inp _. unfold counter_step. cbv zeta.
+  assert (E : (if Z.of_nat t mod (limit + 1) =? limit then 0 else Z.of_nat t mod (limit + 1) + 1)
+              = Z.of_nat (S t) mod (limit + 1)).
+  { replace (Z.of_nat (S t)) with (Z.of_nat t + 1) by lia. rewrite <- succ_mod_step by lia.
+    replace (limit + 1 - 1) with limit by lia. reflexivity. }
+  rewrite E. reflexivity.
 Qed.
 
 Theorem ccounter_closed_form : forall (w : BinNums.N) (limit : Z) ins, 0 <= limit ->
@@ -269,13 +277,14 @@ Proof.
   assert (H0 : [0; (if tas then D - 1 else 0); zb ds]
                = (fun t => [0; dv_cnt D tas t; zb (dv_state D ds tas t)]) 0%nat).
   { unfold dv_cnt, dv_state. rewrite Z.add_0_r, Z.mod_small by (destruct tas; lia). reflexivity. }
-  rewrite H0. apply (trace_closed _ never_disabled); [|exact Hins].
+  rewrite H0.
+  refine (trace_closed _ never_disabled (fun t => [0; dv_cnt D tas t; zb (dv_state D ds tas t)]) _ _ ins 0%nat Hins).
   intros t inp Hinp. destruct inp as [|en [|dis [|? ?]]]; try contradiction. cbn [never_disabled] in Hinp.
   unfold divider_step. rewrite Hinp, zb_eqb. cbn [Z.eqb].
   assert (Hen : (if vbit en then 0 else 0) = 0) by (destruct (vbit en); reflexivity). rewrite Hen.
-  unfold dv_cnt at 1 2. rewrite succ_mod_step by lia.
-  replace ((if tas then D - 1 else 0) + Z.of_nat t + 1) with ((if tas then D - 1 else 0) + Z.of_nat (S t)) by lia.
-  fold (dv_cnt D tas (S t)).
+  assert (E : (if dv_cnt D tas t =? D - 1 then 0 else dv_cnt D tas t + 1) = dv_cnt D tas (S t)).
+  { unfold dv_cnt. rewrite succ_mod_step by lia. f_equal. lia. }
+  rewrite E.
   change (dv_state D ds tas (S t)) with (dv_tick ds (dv_cnt D tas (S t))).
   unfold dv_tick. reflexivity.
 Qed.
@@ -296,3 +305,56 @@ Theorem dividerm_restart : forall (D : Z) (ds tas : bool) c s ri fa en0 rest,
   Ok [obit ds; obit false; obit false] ::
   traceB (dividerm_step D ds tas) (dividerm_init D ds tas) rest.
 Proof. intros. reflexivity. Qed.
+
+(** ** the tie to the emitted VHDL, for every configuration at once: whenever the per-configuration check of
+    harness/c16.py against the specification machine succeeds for a parsed design [d], the design has the
+    trace of the as-coded model with the same numbers, on every input sequence over the explored alphabet *)
+From Cohdl Require Import Vhdl.Syntax Vhdl.Sem Vhdl.DefAssign Vhdl.DeadVars Equiv.VhdlTS Equiv.StoreTS.
+
+Lemma adm_true step : forall ins st, adm step (fun _ _ => true) st ins.
+Proof. induction ins as [|i r IH]; intros st; cbn [adm]; auto. Qed.
+
+Lemma code_tie_gen d mid alphabet fuel (stepM stepS : rstep) initM initS :
+  (forall ins, traceB stepM initM ins = traceB stepS initS ins) ->
+  conc_all_ok (auto_Ts d) d = true ->
+  is_ok (rcheck_s d mid stepS alphabet (fun _ _ => true) fuel initS) = true ->
+  forall ins, Forall (fun i => In i alphabet) ins ->
+    traceA (sstep d mid) (power_up_s d) ins = traceB stepM initM ins.
+Proof.
+  intros Href Hd Hc ins Hal. rewrite Href.
+  apply (rcheck_s_sound d mid stepS alphabet (fun _ _ => true) fuel initS Hd Hc).
+  apply admissible_adm. split; [apply adm_true|exact Hal].
+Qed.
+
+Theorem dline_code_tie : forall d mid alphabet fuel (n : nat) (w : BinNums.N) (i : Z), (1 <= n)%nat ->
+  conc_all_ok (auto_Ts d) d = true ->
+  is_ok (rcheck_s d mid (delay_step w) alphabet (fun _ _ => true) fuel (repeat i n)) = true ->
+  forall ins, Forall (fun x => In x alphabet) ins ->
+    traceA (sstep d mid) (power_up_s d) ins = traceB (dline_step w) (dline_init n i) ins.
+Proof. intros d mid alphabet fuel n w i Hn. apply code_tie_gen. intros ins. apply dline_refines_delay. exact Hn. Qed.
+
+Theorem ccounter_code_tie : forall d mid alphabet fuel (w : BinNums.N) (limit : Z), 0 <= limit ->
+  conc_all_ok (auto_Ts d) d = true ->
+  is_ok (rcheck_s d mid (counter_step w limit) alphabet (fun _ _ => true) fuel [0]) = true ->
+  forall ins, Forall (fun x => In x alphabet) ins ->
+    traceA (sstep d mid) (power_up_s d) ins = traceB (ccounter_step w limit) [0] ins.
+Proof. intros d mid alphabet fuel w limit Hl. apply code_tie_gen. intros ins. apply ccounter_refines. exact Hl. Qed.
+
+Theorem togglem_code_tie : forall d mid alphabet fuel (first second : Z) (ds fs : bool),
+  0 <= first -> 0 <= second -> 1 <= first + second ->
+  conc_all_ok (auto_Ts d) d = true ->
+  is_ok (rcheck_s d mid (toggle_step first second ds fs) alphabet (fun _ _ => true) fuel [0; zb ds]) = true ->
+  forall ins, Forall (fun x => In x alphabet) ins ->
+    traceA (sstep d mid) (power_up_s d) ins = traceB (togglem_step first second ds fs) (togglem_init ds) ins.
+Proof.
+  intros d mid alphabet fuel first second ds fs H1 H2 H3. apply code_tie_gen. intros ins.
+  apply togglem_refines; assumption.
+Qed.
+
+Theorem dividerm_code_tie : forall d mid alphabet fuel (D : Z) (ds tas : bool), 1 <= D ->
+  conc_all_ok (auto_Ts d) d = true ->
+  is_ok (rcheck_s d mid (divider_step D ds tas) alphabet (fun _ _ => true) fuel
+           [0; (if tas then D - 1 else 0); zb ds]) = true ->
+  forall ins, Forall (fun x => In x alphabet) ins ->
+    traceA (sstep d mid) (power_up_s d) ins = traceB (dividerm_step D ds tas) (dividerm_init D ds tas) ins.
+Proof. intros d mid alphabet fuel D ds tas HD. apply code_tie_gen. intros ins. apply dividerm_refines. exact HD. Qed.
